@@ -78,26 +78,58 @@ def behaviours_script(cfgs, beh, path, select=None, mode="handler"):
     return n
 
 
-def run_script(c, exe, script, tag, trace_module="TraceArgEval", timeout=600, env=None, shards=NCPU):
-    tr = os.path.join(c.wd, "trace_%s.ndjson" % tag)
-    c.drive(exe, ["--script", script, "--scratch", scratch(c)], tr, tag, timeout=timeout, env=env)
-    # a configuration the handler refuses to set up is a generator problem, never a property violation
-    bad = 0
-    with open(tr) as f:
+def _chunks(script, maxlines):
+    """splits a script into pieces of at most maxlines actions; every piece starts with the Reset of its block."""
+    pieces, cur, reset = [], [], None
+    with open(script) as f:
         for ln in f:
-            if '"out":"setup"' in ln:
-                bad += 1
-                if bad == 1:
-                    first = ln[:600]
-    if bad:
-        raise MachineryError("%s: %d generated configurations were refused at set-up (generator out of domain): %s" % (tag, bad, first))
+            if ln.startswith('{"n": "Reset"') or ln.startswith('{"n":"Reset"'):
+                reset = ln
+                if len(cur) >= maxlines:
+                    pieces.append(cur); cur = []
+                cur.append(ln)
+                continue
+            if len(cur) >= maxlines:
+                pieces.append(cur); cur = [reset] if reset else []
+            cur.append(ln)
+    if cur:
+        pieces.append(cur)
+    return pieces
+
+
+def run_script(c, exe, script, tag, trace_module="TraceArgEval", timeout=600, env=None, shards=NCPU, maxlines=120000):
+    """Runs a script through the driver (in pieces, so that no recorded trace exceeds the output limit) and
+    validates every recorded trace with TLC.  Returns (rejections, path of the last trace)."""
+    pieces = _chunks(script, maxlines)
+    allrej, tr = [], None
     stats = collections.Counter()
-    with open(tr) as f:
-        for ln in f:
-            if ln.startswith('{"e":"Eval"'):
-                stats["ok" if '"out":"ok"' in ln else "err" if '"out":"err"' in ln else "other"] += 1
+    for k, piece in enumerate(pieces):
+        ptag = tag if len(pieces) == 1 else "%s.%d" % (tag, k)
+        ps = script if len(pieces) == 1 else "%s.part%d" % (script, k)
+        if len(pieces) > 1:
+            with open(ps, "w") as f:
+                f.writelines(piece)
+        tr = os.path.join(c.wd, "trace_%s.ndjson" % ptag)
+        c.drive(exe, ["--script", ps, "--scratch", scratch(c)], tr, ptag, timeout=timeout, env=env)
+        # a configuration the handler refuses to set up is a generator problem, never a property violation
+        bad, first = 0, ""
+        with open(tr) as f:
+            for ln in f:
+                if '"out":"setup"' in ln:
+                    bad += 1
+                    if bad == 1:
+                        first = ln[:600]
+                elif ln.startswith('{"e":"Eval"'):
+                    stats["ok" if '"out":"ok"' in ln else "err" if '"out":"err"' in ln else "other"] += 1
+        if bad:
+            raise MachineryError("%s: %d generated configurations were refused at set-up (generator out of domain): %s" % (ptag, bad, first))
+        allrej += c.validate(SPEC, trace_module, trace_module + ".cfg", tr, ptag, shards=shards, stateless=True)
+        if len(pieces) > 1:
+            os.remove(ps)
+            if k < len(pieces) - 1 and not allrej:
+                os.remove(tr)
     c.notes.append("%s: outcomes recorded from the implementation: %s" % (tag, dict(stats)))
-    return c.validate(SPEC, trace_module, trace_module + ".cfg", tr, tag, shards=shards, stateless=True), tr
+    return allrej, tr
 
 
 def line_json(line):
